@@ -19,7 +19,7 @@ def add(pid, engine, technique, text, note, ref):
 
 add("C17", "enum", "bounded-exhaustive enumeration of pattern lists x paths vs reference matcher",
     "Every glob pattern of <=3 (quick) / <=4 (thorough) tokens over a 12-token alphabet and every ordered list of 0-3 patterns from a 60-pattern pool is compiled by the real CompileGlobs and matched against every path up to length 5/4 over a 6-letter alphabet; each answer is compared with an independent recursive matcher. Exhaustive inside those bounds.",
-    "Trusts the reference matcher (35 lines) and Go's regexp; unescaped brackets are outside the stated semantics.", "DESIGN.md section 5 C17")
+    "Trusts the reference matcher (35 lines) and Go's regexp; unescaped brackets are outside the stated semantics. The real consumers are driven too: glob() and os.glob() with every include list of 1-2 and exclude list of 0-1 (0-2) patterns of a 20-pattern pool on a generated tree, and dawn.toml ignore lists deciding which packages load, each compared with the reference over the whole tree.", "DESIGN.md section 5 C17")
 
 SCHED_NOTE = "Trusts the vsched shim's model of sync.Mutex/RWMutex/Cond/WaitGroup/sync.Map/atomic (sequential consistency, no spurious wake-ups, Signal wakes any waiter), fair scheduling for termination, and data-race freedom of the instrumented files (free-running -race pass in the thorough tier). The code explored is the real file from /repo's working tree with only its sync imports and go statements redirected."
 add("C04", "vsched", "stateless exploration of all thread interleavings of the real runner up to a preemption bound (HB-pruned), monitor oracle",
@@ -54,7 +54,7 @@ add("C19", "enum", "bounded-exhaustive enumeration of configurations, round-trip
 
 add("C16", "enum", "bounded-exhaustive enumeration of value pairs through the real Diff (and a route-limit-4 build), edit-script replay oracle",
     "All ordered pairs of int sequences over {0,1,2} of length <=4 (5) as lists/tuples/mixed, binary lists to length 6 (8), strings and bytes over {a,b,c} to length 4 (5), nested sequences, all pairs of dicts over 3 keys x 5 (8) values, a 59-value cross-type pool, deep chains, and real-size pairs that cross the 2,000,000-point route limit; second pass on a build with the route limit scaled to 4. Oracle: nil diff <=> starlark.Equal; Old()/New() are the arguments in order; replaying the edits rebuilds old and new (recursively through nested diffs); mapping diffs have an edit exactly for added/removed/changed keys.",
-    "Trusts the replay oracle and starlark.Equal. The scaled pass differs from /repo only in defaultRouteSize (vtool -const).", "DESIGN.md section 5 C16")
+    "Trusts the replay oracle and starlark.Equal. The scaled pass differs from /repo only in defaultRouteSize (vtool -const). Third pass (c08 harness, -as C16): after every single edit of every generated program the rebuild reason must name exactly the environment parts that differ (the property's last clause), including programs with self-referential data.", "DESIGN.md section 5 C16")
 
 HIST_NOTE = "Trusts the reference model (what each target's latest successful execution consumed) and the project shape's input map; every build is a fresh dawn.Load + Run through the public API on a real directory (tmpfs); intra-build thread schedule is the Go runtime's (schedules are C04/C05/C09's); execution identifiers in records are alpha-renamed for state de-duplication because dawn only compares them for equality."
 add("C01", "hist", "explicit-state BFS over all edit/build histories up to a depth on real project directories; currency model + differential against a from-scratch build",
@@ -62,7 +62,7 @@ add("C01", "hist", "explicit-state BFS over all edit/build histories up to a dep
     HIST_NOTE, "DESIGN.md sections 3, 5 C01")
 add("C02", "hist", "explicit-state BFS over all histories; minimality oracle (every executed target needs a reason the property recognises)",
     "Same search with an alphabet of neutral edits (comment/blank/docstring edits in three files, out-of-closure source, other package's target added/removed, undeclared output deleted, same-content re-creation of every file on every transition) mixed with real edits and partial builds: in every reachable state a target that is current by the model and none of whose dependencies executes must not execute.",
-    HIST_NOTE + " Load-order and process-restart independence of fingerprints is checked by C08's harness.", "DESIGN.md sections 3, 5 C02")
+    HIST_NOTE + " Second pass: dawn.Load under the controlled scheduler (c06 harness, -as C02): under every explored interleaving of the package/module loads the fingerprint of every target must equal the one of the first interleaving. Process-restart independence (another OS process) is exercised by C08's harness.", "DESIGN.md sections 3, 5 C02")
 add("C13", "hist", "explicit-state BFS with dry runs at every position; twin real build from the same state",
     "Dry runs of two targets are operations of the BFS (depth <=6 quick): a dry run must execute no body, leave the directory byte-identical to what Load left, report exactly the targets the real build of the same state attempts (superset limited to downstream of the failure when the real build fails), and Build-after-Dry must equal Build directly (executed set and resulting state).",
     HIST_NOTE, "DESIGN.md section 5 C13")
@@ -71,7 +71,7 @@ add("C14", "hist", "explicit-state BFS with GC (full and index-preferred load) a
     HIST_NOTE, "DESIGN.md section 5 C14")
 add("C18", "hist", "explicit-state BFS; per-label event automaton on every build of every reachable state",
     "Every build (incl. failing, always and dry builds) of the BFS is monitored: per label UpToDate | Evaluating Print* (Succeeded|Failed) | lone Failed only for missing/cyclic dependency; Prints only inside; exactly one RunDone, last, carrying Run's error; Evaluating <=> the body ran.",
-    HIST_NOTE + " Output chunking and schedule exploration of Project.Run are parts (b),(c) of the harness (see DESIGN.md).", "DESIGN.md section 5 C18")
+    HIST_NOTE + " The same run enumerates every text over {x, newline} of length <=7 (10) x every cut into chunks, written from a real target body through a fresh and through a reused buffer: the delivered lines must be the text's lines, once, between Evaluating and completion. A record-write fault caused by a body (temp directory removed) is in the alphabet. Second pass (binary with the root package and runner under vsched): 8 build scenarios incl. missing dependency and dependency cycle, every interleaving of Project.Run with 0 (quick) / 1 (thorough) preemptions, same protocol oracle plus line delivery of chatty bodies.", "DESIGN.md section 5 C18")
 
 add("C03", "hist+vsched+vos", "enumeration of every crash point between persistent effects (plus torn in-place writes) of real builds under the controlled scheduler, then BFS of recovery histories",
     "For 11 (quick) / 28 (thorough) pre-state histories x 3 build targets the real Load+Run executes under the controlled scheduler with os redirected to an effect-announcing shim: the directory at each of the ~20-60 effect points (record temp create/write/rename, mkdir, index truncate/write, each emit of a two-step body) and each torn prefix of in-place writes is a crash state (quick: default linearisation; thorough: all schedules with <=1 preemption, capped). From every distinct crash state: Load must succeed with and without the index, and a breadth-first search of depth 2 (3) over builds and edits must end every successful build with a current closure (unfinished/failed executions count as not executed) and outputs equal to a from-scratch build. Failure patterns of bodies are in the pre-states and alphabet.",
